@@ -72,7 +72,9 @@ def _execute(record, root):
                 checks.append((name, r[key], tol[K] * tau + tol["floor"], True))
             if not degenerate:
                 mx["rediag_over_tau"] = max(mx.get("rediag_over_tau", 0.0), r["rediag"] / tau)
-                checks.append(("rediagonalisation", r["rediag"], tol["K_rediag"] * tau + tol["floor"], True))
+                # first-order perturbation theory: a commutator residual c changes the re-diagonalised density by ~ c / gap, so
+                # for gaps below 1 eV the factor of proportionality to the threshold grows like 1 / gap
+                checks.append(("rediagonalisation", r["rediag"], tol["K_rediag"] * tau * max(1.0, 1.0 / r["gap"]) + tol["floor"], True))
             for name, val, bound, _ in checks:
                 if not (val <= bound):
                     failures.append(core.fail(f"converged-but-not-self-consistent/{name}", f"{tag}: molecule {m} ({names[m]}) is reported converged but its {name} residual is {val:.3e} (bound {bound:.3e}, tau={tau:.1e})"))
